@@ -167,11 +167,11 @@ def gen_wire(rnd):
             c = rnd.randrange(1, nchan + 1)
             r = rnd.random()
             if r < 0.6:
-                size = rnd.choice([0, 1, 5, 4088, 4089, 9000])
+                size = rnd.choice([0, 1, 5, 1016, 1017, 2500])
                 ops.append((c, ('publish', bytes([65 + t]) * size, False)))
             elif r < 0.8:
                 ops.append((c, ('ack',)))
             else:
                 ops.append((c, ('declare', b'w%d%d' % (t, j))))
         threads.append(ops)
-    return dict(nchan=nchan, threads=threads, frame_max=4096, partial=True)
+    return dict(nchan=nchan, threads=threads, frame_max=1024, partial=True)
